@@ -430,6 +430,9 @@ class Loader:
                 for s in bl["st"]:
                     if s["k"] == "assign" and not s["p"]["p"]:
                         a.add(s["p"]["l"])
+                    # a local mutated through a reference taken inside the loop (iterator.next(&mut it)) is loop-carried too
+                    if s["k"] == "assign" and s["r"]["k"] == "ref" and s["r"].get("mut") and not any(pr["k"] == "deref" for pr in s["r"]["p"]["p"]):
+                        a.add(s["r"]["p"]["l"])
                 t = bl["term"]
                 if t["k"] == "call" and not t["dest"]["p"]:
                     a.add(t["dest"]["l"])
@@ -475,6 +478,9 @@ class Loader:
             v = st.mem.get(("f", fr.fid, l))
             if l in names and isinstance(v, Int):
                 out[names[l]] = v.bits
+            elif isinstance(v, Agg) and len(v.fields) == 2 and all(isinstance(x, Int) for x in v.fields):
+                # a Range iterator: its current position
+                out["%s.start" % names.get(l, "l%d" % l)] = v.fields[0].bits
         return out
 
     def store_of(self, st, name):
